@@ -8,6 +8,7 @@ from harness.core import Check, Violation, short
 from harness import recipes as R
 from hypothesis import strategies as st
 
+import lena.core
 from lena.core import (Sequence, Split, FillComputeSeq, FillSeq, LenaStopFill,
                        LenaTypeError, Call, Run, FillInto, FillCompute, SourceEl)
 
@@ -441,6 +442,27 @@ def judge_adapter_misc(case):
         if got != list(src):
             raise Violation("SourceEl-iterable-not-repeatable",
                             "SourceEl(%r)() gave %r on a later call" % (src, got))
+    # elements that are callable and iterable at once: a lena Source (callable without arguments, iterable over
+    # its elements) and a user data set (iterates over its file names, reads the data when called): the
+    # meaning of the wrapped element as a source is its call
+    class DataSet(object):
+        def __iter__(self):
+            return iter(["file_a", "file_b"])
+
+        def __call__(self):
+            return iter(list(xs))
+    import warnings
+    with warnings.catch_warnings():
+        warnings.simplefilter("ignore")
+        both = [DataSet(), lena.core.Source(lambda: iter(list(xs))), lena.core.Source(lambda: iter(list(xs)), lambda v: v)]
+    for el in both:
+        try:
+            got = list(SourceEl(el)())
+        except LenaTypeError:
+            raise Violation("adapter-rejects-valid-element", "SourceEl(%s) raised LenaTypeError" % type(el).__name__)
+        if got != list(xs):
+            raise Violation("adapter-changes-meaning-of-wrapped-method",
+                            "SourceEl(%s)() gives %s, the element called gives %s" % (type(el).__name__, short(got), short(list(xs))))
     f = Run(None, run=_genfunc)
     if list(f.run(iter(xs))) != [("g", v) for v in xs]:
         raise Violation("Run-none-genfunc", "")
